@@ -258,8 +258,8 @@ class prevent_literal_type(PreventAssertionFeedback):
     def condition(self):
         literal_type = self.fields['literal_type']
         if literal_type == bool:
-            uses = (self.fields['root'].find_matches("False") +
-                    self.fields['root'].find_matches("True"))
+            uses = (_find_literal_uses(self.fields['root'], False) +
+                    _find_literal_uses(self.fields['root'], True))
             uses = [match.match_root for match in uses]
         elif literal_type == str:
             uses = self.fields['root'].find_all("Str")
@@ -294,8 +294,8 @@ class ensure_literal_type(EnsureAssertionFeedback):
     def condition(self):
         literal_type = self.fields['literal_type']
         if literal_type == bool:
-            uses = (self.fields['root'].find_matches("False")+
-                    self.fields['root'].find_matches("True"))
+            uses = (_find_literal_uses(self.fields['root'], False) +
+                    _find_literal_uses(self.fields['root'], True))
             uses = [match.match_root for match in uses]
         elif literal_type == str:
             uses = self.fields['root'].find_all("Str")
